@@ -28,6 +28,13 @@ ASSUMPTIONS = [
 
 
 MUTANTS = [
+    ("membership look-up array kept between queries",
+     "AegeanTools/regions.py",
+     "        pixelset = self.get_demoted()\n"
+     "        result = np.isin(pix, list(pixelset))\n",
+     "        if getattr(self, '_lookup', None) is None:\n"
+     "            self._lookup = np.array(sorted(self.get_demoted()))\n"
+     "        result = np.isin(pix, self._lookup)\n", "C11-R7"),
     ("origin 1", "AegeanTools/source_finder.py",
      "ra, dec = wcs.wcs.wcs_pix2world(yx, 0).transpose()",
      "ra, dec = wcs.wcs.wcs_pix2world(yx, 1).transpose()", "C11-R1"),
@@ -282,8 +289,9 @@ def run(ctx):
              "sees every stored level of the region (1..maxdepth-1 are "
              "flattened into the deepest one) -- shared with C08-R4 / C09-R5")
     from ..regionmodel import region_methods
-    from .c08 import demotion_levels
+    from .c08 import demotion_levels, r12_derived
     demotion_levels(ctx, region_methods(prog), "C11-R6")
+    r12_derived(ctx, region_methods(prog), "C11-R7")
     # ---------------------------------------------------------------- R5
     nl = link.check(ctx, ["source_finder.find_islands",
                           "regions.Region.sky_within", "regions.Region.load"],
